@@ -144,3 +144,63 @@ func VerifC12Heads() {
 	_, has := b.OpLog().Get(valid.GetHash())
 	vstub.Assert(has, "C12 the valid head is in the log")
 }
+
+// VerifC12RepeatedHeads: a WELL-FORMED but abusive heads message: one genuine
+// head listed R times (R larger than any worker pool a verification stage might
+// use), or R distinct genuine heads of one chain.  Sync returns, the entries are
+// merged once, and a later valid message is still handled.
+func VerifC12RepeatedHeads() {
+	r := vstub.Param("R", 20)
+	blocks := vstub.NewBlocks(nil)
+	prov := vstub.NewProvider()
+	w2 := vstub.NewIdentity("w2", prov)
+	a, env := openAC("a", blocks, vstubodb.WriteAll())
+	if a == nil {
+		return
+	}
+	ctx := context.Background()
+	var l *ipfslog.IPFSLog
+	var chain []ipfslog.Entry
+	distinct := vstub.NdChoice("distinct-heads", 2) == 1
+	n := 1
+	if distinct {
+		n = r
+	}
+	for k := 0; k < n; k++ {
+		var e ipfslog.Entry
+		l, e = appendAs(env, l, a.id, w2, []byte{'h', byte(k)})
+		if e == nil {
+			return
+		}
+		chain = append(chain, e)
+	}
+	var msg []ipfslog.Entry
+	for k := 0; k < r; k++ {
+		if distinct {
+			msg = append(msg, chain[k].Copy())
+		} else {
+			msg = append(msg, chain[0].Copy())
+		}
+	}
+	if distinct {
+		vstub.Cover("many-distinct-heads")
+	} else {
+		vstub.Cover("one-head-repeated")
+	}
+	_ = a.Sync(ctx, msg) // must return
+	vstub.WaitIdle()
+	vstub.Cover("abusive-message-handled")
+	for _, e := range chain {
+		vstub.Assert(inLog(a, e), "C12 the genuine entries of an abusive heads message are merged")
+	}
+	vstub.Assert(a.OpLog().Len() == len(chain), "C12 an abusive heads message adds each entry once")
+	_, later := appendAs(env, l, a.id, w2, []byte("later"))
+	if later == nil {
+		return
+	}
+	if err := a.Sync(ctx, []ipfslog.Entry{later.Copy()}); err != nil {
+		vstub.Fail("C12 a later valid message returned an error")
+	}
+	vstub.WaitIdle()
+	vstub.Assert(inLog(a, later) && inView(a, later), "C12 a valid message after an abusive one is still handled")
+}
